@@ -291,10 +291,16 @@ def run_svd(case):
         cov.append('one-sided-or-missing-sector')
     # ranks the documentation promises per block: singular values (strictly) greater than cutoff
     nums = []
+    ambiguous = False      # a singular value within rounding noise of the cutoff (other than the exact tie of a 1x1 block)
     for blk in b._data:
         s = np.linalg.svd(blk, compute_uv=False) if min(blk.shape) > 0 else np.zeros(0)
         nums.append(int(np.sum(s > o['cutoff'])) if o.get('cutoff') is not None else int(len(s)))
+        if o.get('cutoff') is not None and blk.shape != (1, 1) and np.any(blk) and np.any(np.abs(s - o['cutoff']) <= 1e-12 * es * max(1., np.linalg.norm(blk))):
+            ambiguous = True
     out['nums'] = nums
+    out['ambiguous_cutoff'] = ambiguous
+    if ambiguous:
+        cov.append('cutoff-within-rounding-of-a-singular-value(count-not-compared)')
     try:
         U, S, VH = npc.svd(a, **kw)
     except RuntimeError as e:
@@ -327,7 +333,7 @@ def run_svd(case):
     if o.get('cutoff') is not None:
         sall = np.linalg.svd(ad, compute_uv=False)
         lo, hi = int(np.sum(sall > o['cutoff'] + 1e-9 * nrm * es)), int(np.sum(sall > o['cutoff'] - 1e-9 * nrm * es))
-        if len(S) != sum(nums):
+        if len(S) != sum(nums) and not ambiguous:
             probs.append((fkey + 'S-count', 'number of singular values %d, but %d block singular values are (strictly) greater than the cutoff %r' % (
                 len(S), sum(nums), o['cutoff'])))
         elif not (lo <= len(S) <= hi):
@@ -342,8 +348,9 @@ def run_svd(case):
     if not full:
         rec = Ud @ np.diag(S) @ Vd
         err = np.linalg.norm(rec - ad)
-        allowed = tol if o.get('cutoff') is None else tol + np.sqrt(len(sd) + 1) * o['cutoff'] * 0 + np.linalg.norm(
-            np.linalg.svd(ad, compute_uv=False)[len(sd):]) + tol
+        # with a cutoff: the discarded part is what the (separately validated) number of kept singular values leaves of the dense spectrum
+        sdense = np.linalg.svd(ad, compute_uv=False)
+        allowed = tol if o.get('cutoff') is None else 2 * tol + np.linalg.norm(sdense[min(len(S), len(sdense)):])
         if err > allowed:
             probs.append((fkey + 'reconstruct' + intd, '|U S VH - a| = %.3e > %.3e (dtype of a %s, of U %s)' % (err, allowed, a.dtype, U.dtype)))
         if np.linalg.norm(Ud.conj().T @ Ud - np.eye(len(S))) > 1e-10 * es * max(1, len(S)):
